@@ -13,16 +13,14 @@ import (
 type libModel func(x *Exec, st *State, e *ast.CallExpr, recv *Val) []Val
 type libMod func(x *Exec, ms *modSet, e *ast.CallExpr)
 
-var libModels map[string]libModel
-var libMods map[string]libMod
+var libModels = map[string]libModel{}
+var libMods = map[string]libMod{}
 
 func bigPow2(n uint) *big.Int { return new(big.Int).Lsh(big.NewInt(1), n) }
 
 var u8 = types.Typ[types.Uint8]
 
 func init() {
-	libModels = map[string]libModel{}
-	libMods = map[string]libMod{}
 
 	// ---- encoding/binary little endian ----
 	for _, w := range []int{16, 32, 64} {
@@ -125,7 +123,25 @@ func init() {
 			return x.havocResults(st, fn.Type().(*types.Signature), sanitize(name))
 		}
 	}
-	for _, n := range []string{"time.Now", "time.Since", "time.Time.Unix", "time.Time.UnixNano", "time.Time.Sub", "time.Duration.Seconds", "time.Time.Add",
+	libModels["time.Time.Unix"] = func(x *Exec, st *State, e *ast.CallExpr, recv *Val) []Val {
+		// ghost clock: seconds since 1970, non-decreasing, below 2^40; ghostNow() is the last value read
+		c := x.c
+		prev := x.heapGet(st, "ghost.now", SInt)
+		r := x.freshVal(st, "unixnow", types.Typ[types.Int64])
+		var rm *Term
+		if x.mode == "bv" {
+			rm = c.app("bv2nat", SInt, r.T)
+			x.assumeGlobal(st, c.bvcmp("bvsle", c.BV64(64, 0), r.T))
+		} else {
+			rm = r.T
+		}
+		x.assumeGlobal(st, c.And(c.Le(c.Int(0), rm), c.Le(prev, rm), c.Le(rm, c.IntBig(bigPow2(40))), c.Le(c.Int(0), prev)))
+		x.heapSet(st, "ghost.now", rm)
+		x.assumed["time.Time.Unix(): a non-decreasing clock value in [0, 2^40) (every Time value is treated as 'now')"] = true
+		return []Val{r}
+	}
+	libMods["time.Time.Unix"] = func(x *Exec, ms *modSet, e *ast.CallExpr) { ms.add("ghost.now", SInt) }
+	for _, n := range []string{"time.Now", "time.Since", "time.Time.UnixNano", "time.Time.Sub", "time.Duration.Seconds", "time.Time.Add",
 		"time.Time.Before", "time.Time.After", "time.Duration.Nanoseconds", "time.Time.Format", "time.Unix",
 		"unicode.IsControl", "unicode.IsSpace", "net/http.DetectContentType", "os.Getpid", "runtime.NumGoroutine"} {
 		libModels[n] = havoc(n)
